@@ -182,6 +182,17 @@ def run_1d(case, rec):
             alt61 = np.array([np.mean([exact_slit(f, abs(qi + kk*W/30.0), L, 0.0) for kk in range(-30, 31)]) for qi in q])
             if bool(np.all(np.abs(got - alt61) <= K*(h0/width)*S)):
                 key = "C04/slit-length-and-width-fixed-61-point-rule"
+    if not ok and geom == "pinhole" and lo < 0:
+        # listed finding: when some window reaches below zero the calculation grid has a hole |q| < 0.02 q_min, and
+        # the two bins next to the hole are given the whole hole as their width; a row whose window ends near the
+        # hole gets that extra weight.  Classified only if every error is within the Gaussian mass of the hole
+        # region times the variation of I.
+        cut_ = 0.02*float(np.min(q))
+        e1 = errs[2]
+        mass = np.array([0.5*(math.erf((cut_ + 2*h0 - qi)/(math.sqrt(2)*si)) - math.erf((-cut_ - 2*h0 - qi)/(math.sqrt(2)*si)))/0.98
+                         for qi, si in zip(q, s)])
+        if bool(np.all((e1 <= K*(h0/width)*S) | (e1 <= 1.5*mass*S))):
+            key = "C04/pinhole-hole-around-zero-widens-adjacent-bins"
     if not ok and geom == "slit(0,W)" and np.any(q < W):
         # listed finding: the part of the window with |q+v| < 0.02 q_min is dropped (and the rest renormalised).
         # Only classify as that if the finest-grid result matches the integral with that part removed.
